@@ -4,6 +4,7 @@ package gkvlite
 
 import (
 	"bytes"
+	"errors"
 	"io"
 )
 
@@ -74,6 +75,9 @@ func vNeutralCallbacks(mask int) StoreCallbacks {
 			b := make([]byte, valLength)
 			if _, err := r.ReadAt(b, offset); err != nil {
 				return err
+			}
+			if valLength == 0 || b[valLength-1] != 0xAA {
+				return errors.New("padded value: framing byte missing")
 			}
 			i.Val = b[:valLength-1]
 			return nil
